@@ -40,37 +40,28 @@ Proof. unfold upd_send. destruct st; reflexivity. Qed.
 
 Lemma send_raw_upd st g o t rs : upd_send st (fst (send_raw_ st g o t rs)).
 Proof.
-  unfold send_raw_, upd_send. destruct (countable o && sm_enabled _ && negb (r_sent _)); destruct st; reflexivity.
+  unfold send_raw_, upd_send. destruct (countable _ && sm_enabled _ && negb (r_sent _)); destruct st; reflexivity.
 Qed.
 
 Lemma send_raw_silent st g o t rs : forallb silent (snd (send_raw_ st g o t rs)) = true.
-Proof. unfold send_raw_. destruct (countable o && sm_enabled _ && negb (r_sent _)); reflexivity. Qed.
-
-Lemma send_raw_sq st g o t rs :
-  exists tail, sq (fst (send_raw_ st g o t rs)) = sq st ++ mk_sqe g o t 0 rs :: tail /\
-               forallb (fun e => negb (countable (q_owner e))) tail = true.
-Proof.
-  unfold send_raw_. destruct (countable o && sm_enabled _ && negb (r_sent _)); cbn.
-  - eexists [_]. rewrite <- app_assoc. split; reflexivity.
-  - exists []. split; reflexivity.
-Qed.
+Proof. unfold send_raw_. destruct (countable _ && sm_enabled _ && negb (r_sent _)); reflexivity. Qed.
 
 Lemma send_raw_spec st g o t rs :
   exists q r n tail,
     fst (send_raw_ st g o t rs) = set_next_gid (set_r_sent (set_sq st q) r) n /\
-    q = sq st ++ mk_sqe g o t 0 rs :: tail /\
+    q = sq st ++ mk_sqe g (eff_owner st o) t 0 rs :: tail /\
     forallb (fun e => negb (countable (q_owner e))) tail = true /\
     next_gid st <= n /\
     Forall (fun e => next_gid st <= q_gid e < n) tail /\
     forallb silent (snd (send_raw_ st g o t rs)) = true.
 Proof.
-  unfold send_raw_. destruct (countable o && sm_enabled _ && negb (r_sent _)) eqn:E; cbn.
-  - exists (sq st ++ [mk_sqe g o t 0 rs] ++ [mk_sqe (next_gid st) OSm R_TEXT 0 false]), true, (next_gid st + 1),
+  unfold send_raw_. destruct (countable _ && sm_enabled _ && negb (r_sent _)) eqn:E; cbn.
+  - exists (sq st ++ [mk_sqe g (eff_owner st o) t 0 rs] ++ [mk_sqe (next_gid st) OSm R_TEXT 0 false]), true, (next_gid st + 1),
            [mk_sqe (next_gid st) OSm R_TEXT 0 false].
     split; [destruct st; cbn; rewrite <- app_assoc; reflexivity|].
     split; [reflexivity|]. split; [reflexivity|]. split; [lia|].
     split; [|reflexivity]. constructor; [cbn; lia|constructor].
-  - exists (sq st ++ [mk_sqe g o t 0 rs]), (r_sent st), (next_gid st), [].
+  - exists (sq st ++ [mk_sqe g (eff_owner st o) t 0 rs]), (r_sent st), (next_gid st), [].
     split; [destruct st; reflexivity|].
     split; [reflexivity|]. split; [reflexivity|]. split; [lia|].
     split; [constructor|reflexivity].
@@ -159,3 +150,43 @@ Proof.
         split; [destruct st; reflexivity|reflexivity].
       * exists (e :: rest), (smq st), (sent_nr st). split; [destruct st; reflexivity|reflexivity].
 Qed.
+
+(* ------------------------------------------------------------------ counting *)
+Definition cnt (l : list Z) (x : Z) : nat := count_occ Z.eq_dec l x.
+Lemma cnt_app l1 l2 x : cnt (l1 ++ l2) x = (cnt l1 x + cnt l2 x)%nat.
+Proof. apply count_occ_app. Qed.
+Lemma cnt_nil x : cnt [] x = 0%nat.
+Proof. reflexivity. Qed.
+Lemma cnt_cons y l x : cnt (y :: l) x = ((if Z.eq_dec y x then 1 else 0) + cnt l x)%nat.
+Proof. unfold cnt. cbn. destruct (Z.eq_dec y x); reflexivity. Qed.
+Lemma cnt_fresh l x b : Forall (fun y => y < b) l -> b <= x -> cnt l x = 0%nat.
+Proof.
+  intros F H. apply count_occ_not_In. intros I. rewrite Forall_forall in F. apply F in I. lia.
+Qed.
+
+Definition cq (e : sqe) : bool := countable (q_owner e).
+Lemma sqc_app a b : map q_gid (filter cq (a ++ b)) = map q_gid (filter cq a) ++ map q_gid (filter cq b).
+Proof. rewrite filter_app, map_app. reflexivity. Qed.
+Lemma filter_none {A} (f : A -> bool) l : forallb (fun e => negb (f e)) l = true -> filter f l = [].
+Proof.
+  induction l as [|a l IH]; [reflexivity|]. cbn. intros H. apply andb_true_iff in H as [H1 H2].
+  destruct (f a); [discriminate|]. apply IH, H2.
+Qed.
+
+(* ------------------------------------------------------------------ invariants that hold on every history *)
+Definition flags1 (st : state) : Prop :=
+  (connected st = true -> h_feat st = true -> sm_enabled st = false /\ h_bind st = false /\ h_sm st = false) /\
+  (connected st = false -> sm_enabled st = false).
+Definition nolib (st : state) : Prop :=
+  Forall (fun e => q_owner e <> OLib) (sq st) /\ Forall (fun e => s_owner e = OUser) (smq st).
+Definition fresh (s : sys) : Prop :=
+  Forall (fun x => x < next_gid (fst s)) (g_subm (snd s)).
+Definition conserved_c (s : sys) : Prop :=
+  forall x,
+    cnt (g_subm (snd s)) x =
+      (cnt (sqc (fst s)) x + cnt (smqg (fst s)) x + cnt (g_done (snd s)) x + cnt (g_plain (snd s)) x +
+       cnt (g_disc_fresh (snd s)) x + cnt (g_disc_resent (snd s)) x)%nat /\
+    (cnt (g_subm (snd s)) x <= 1)%nat.
+Definition G1 (s : sys) : Prop :=
+  inv1 s /\ flags1 (fst s) /\ nolib (fst s) /\ fresh s /\ conserved_c s.
+
